@@ -132,6 +132,7 @@ def full_alphabet(st=None, hist=None, *, with_alias=True):
         ["mutate", [["pr", ["rank", {"partition_by": [col(T, "g")], "arrange": [["desc", ["nulls_first", col(T, "x")]]]}]],
                     ["ps", ["shift", col(T, "x"), 1, None, {"partition_by": [col(T, "g")], "arrange": [["desc", ["nulls_first", col(T, "x")]], kT]}]]]],
         ["join", {"src": "R"}, "left", [["and", ["eq", kT, col("R", "k")], ["gt", col(T, "x"), lit(2)]]]],  # equality + inequality
+        ["mutate", [["hm", ["hmax", col(T, "g"), col(T, "x"), kT]], ["hn", ["hmin", col(T, "x"), col(T, "g"), lit(3)]]]],  # row-wise max / min of three
         ["select", [Cn("g"), Cn("x")]],  # hides k (e.g. the column the table is ordered by)
         ["select", [Cn("s"), Cn("b"), Cn("f"), Cn("x"), Cn("g"), Cn("k")]],  # a pure permutation of all columns
     ]
